@@ -194,7 +194,9 @@ func c16DeleteProgram(versioned bool) func(g *prog.Gen, idx int) []*prog.Op {
 	return func(g *prog.Gen, idx int) []*prog.Op {
 		b := "del-bkt"
 		keys := shapes[idx%len(shapes)]
-		ops := []*prog.Op{{Kind: "createBucket", Caller: "root", B: b, Valid: true}}
+		ops := []*prog.Op{{Kind: "createBucket", Caller: "root", B: b, Valid: true},
+			{Kind: "putBucketTagging", Caller: "root", B: b, Tags: g.KVs([]string{"team", "env"}, 2)},
+			{Kind: "putBucketPolicy", Caller: "root", B: b, Policy: g.Policy(b), Valid: true}}
 		if versioned {
 			ops = append(ops, &prog.Op{Kind: "putVersioning", Caller: "root", B: b, On: true})
 		}
@@ -212,6 +214,11 @@ func c16DeleteProgram(versioned bool) func(g *prog.Gen, idx int) []*prog.Op {
 		}
 		if versioned {
 			ops = append(ops, &prog.Op{Kind: "listVersions", Caller: "root", B: b})
+		} else {
+			// the bucket is gone now: a bucket created again under the same name starts without the old settings
+			ops = append(ops, &prog.Op{Kind: "createBucket", Caller: "u:up1", B: b, Valid: true},
+				&prog.Op{Kind: "getBucketTagging", Caller: "root", B: b}, &prog.Op{Kind: "getBucketPolicy", Caller: "root", B: b},
+				&prog.Op{Kind: "getBucketAcl", Caller: "root", B: b}, &prog.Op{Kind: "getOwnership", Caller: "root", B: b})
 		}
 		ops = append(ops, &prog.Op{Kind: "listBuckets", Caller: "root"})
 		return ops
@@ -237,6 +244,9 @@ func init() {
 		[]checkFn{c16Names, c16Race, fam("settings-xattr-vdir", true, false, 1601, 120, 3000), fam("settings-sidecar", false, true, 1602, 40, 1000),
 			func(a lib.Args, res *lib.Result) error {
 				return runPrograms(a, res, progOpts{name: "delete-nonempty", prop: "C16", programs: tierN(a, 14, 280), gen: c16DeleteProgram(false), nGateways: 1, classify: c16Classify, seedOff: 1603})
+			},
+			func(a lib.Args, res *lib.Result) error {
+				return runPrograms(a, res, progOpts{name: "delete-nonempty-sidecar", prop: "C16", programs: tierN(a, 7, 140), gen: c16DeleteProgram(false), sidecar: true, nGateways: 1, classify: c16Classify, seedOff: 1605})
 			},
 			func(a lib.Args, res *lib.Result) error {
 				return runPrograms(a, res, progOpts{name: "delete-nonempty-versioned", prop: "C16", programs: tierN(a, 14, 280), gen: c16DeleteProgram(true), versioning: true, nGateways: 1, classify: c16Classify, seedOff: 1604})
